@@ -1,4 +1,156 @@
+(* C02/Properties.v — property theorems (Repaired model) and refutation witnesses (Defective = today's code).
+   Each theorem is closed by [exact] of a lemma from Proofs.v (or vm_compute for concrete witnesses). *)
 From OV Require Import Common.Base C02.Model C02.Proofs.
-Example C02_placeholder : fallback_addr = 1681915905%N.
-Proof. reflexivity. Qed.
-Print Assumptions C02_placeholder.
+Open Scope N_scope.
+
+(* Release frees only the releasing session's own leases: every release path of the model — Release by pool
+   name, ReleaseIP/ReleaseIANAByIP over all pools, ReleasePDByPrefix, the DHCPv4 provider's ReleaseLease —
+   leaves whatever any OTHER session owns (pool lease or recorded static address) untouched, in every
+   well-formed registry, for every address, family and VRF. *)
+Theorem C02_release_only_own :
+  forall r s, reg_ok r ->
+  (forall f key x, let r' := release_pool Repaired f key x s r in
+     reg_ok r' /\ forall t f' v y, t <> s -> owns r f' v y t -> owns r' f' v y t) /\
+  (forall f x vrf r', In r' (release_ip Repaired f x vrf s r) ->
+     reg_ok r' /\ forall t f' v y, t <> s -> owns r f' v y t -> owns r' f' v y t) /\
+  (forall pr mac pr' r', prov_release Repaired pr r mac s = (pr', r') ->
+     reg_ok r' /\ forall t f' v y, t <> s -> owns r f' v y t -> owns r' f' v y t).
+Proof.
+  intros r s Hok. split; [|split].
+  - intros f key x r'. destruct (release_pool_ok f key x s r Hok) as (A & _ & C).
+    split; [exact A|]. intros t f' v y Ht. apply C. exact Ht.
+  - intros f x vrf r' H. destruct (release_ip_ok _ _ _ _ _ _ H Hok) as (A & _ & C).
+    split; [exact A|]. intros t f' v y Ht. apply C. exact Ht.
+  - intros pr mac pr' r' H. destruct (prov_release_ok _ _ _ _ _ _ H Hok) as (A & _ & C).
+    split; [exact A|]. intros t f' v y Ht. apply C. exact Ht.
+Qed.
+Print Assumptions C02_release_only_own.
+
+(* Allocation never takes anything away from anybody, and what it answers is owned by the asking session —
+   for every choice of free slot, override and VRF walk. *)
+Theorem C02_allocate_owned :
+  forall f prof ov vrf s r r' res, reg_ok r -> In (r', res) (alloc_from_profile f prof ov vrf s r) ->
+  reg_ok r' /\ (forall t f' v y, owns r f' v y t -> owns r' f' v y t) /\
+  (res = None \/ exists x k, res = Some (x, k) /\ forall v, owns r' f v x s).
+Proof.
+  intros f prof ov vrf s r r' res Hok Hc.
+  destruct (alloc_from_profile_ok _ _ _ _ _ _ _ _ Hok Hc) as [A B].
+  destruct (A Hok) as (A1 & _ & A3). repeat split; try apply A1; auto.
+  intros t f' v y. apply A3. exact I.
+Qed.
+Print Assumptions C02_allocate_owned.
+
+(* Reserving an AAA-supplied address (inside a pool: any containing pool Go's map order may pick; outside
+   every pool: the per-VRF ledger) either is refused or makes the session its owner; nobody else loses
+   anything. *)
+Theorem C02_reserve_owned_or_refused :
+  forall f x vrf s r r' ok, reg_ok r -> In (r', ok) (reserve_cont Repaired f x vrf s r) ->
+  reg_ok r' /\ (forall t f' v y, owns r f' v y t -> owns r' f' v y t) /\ (ok = true -> owns r' f vrf x s).
+Proof.
+  intros f x vrf s r r' ok Hok Hc.
+  destruct (reserve_cont_ok _ _ _ _ _ _ _ Hok Hc) as [A B].
+  destruct (A Hok) as (A1 & _ & A3). repeat split; try apply A1; auto.
+  intros t f' v y. apply A3. exact I.
+Qed.
+Print Assumptions C02_reserve_owned_or_refused.
+
+(* the DHCPv4 provider's reserveIP (renewal, expiry take-over, conflict) never changes the registry *)
+Theorem C02_provider_reserve_keeps_registry :
+  forall pr r ip mac sid pool pr' r' ok, prov_reserve Repaired pr r ip mac sid pool = (pr', r', ok) -> r' = r.
+Proof. exact prov_reserve_reg. Qed.
+Print Assumptions C02_provider_reserve_keeps_registry.
+
+(* one owner per (family, VRF, address) *)
+Theorem C02_one_owner :
+  forall r f v x s t, reg_ok r -> pools_disjoint r -> owns r f v x s -> owns r f v x t -> s = t.
+Proof. exact owns_functional. Qed.
+Print Assumptions C02_one_owner.
+
+(* Uniqueness per VRF — PARTIAL: stated for every state in which each live session's told/recorded address
+   is owned by it in the registry ([told_is_owned], i.e. C02_told_is_recorded as an invariant).  The three
+   theorems above show that every registry operation of the Repaired model establishes/preserves ownership;
+   MISSING: the induction over [reach Repaired] that threads them through step_pa/pi/pt/id/is/rel (session
+   bookkeeping), so [told_is_owned] is a hypothesis here instead of a consequence of reachability. *)
+Theorem C02_unique_partial :
+  forall st s1 s2 f x,
+  reg_ok (st_reg st) -> pools_disjoint (st_reg st) -> told_is_owned st ->
+  In s1 (st_sess st) -> In s2 (st_sess st) -> s_vrf s1 = s_vrf s2 ->
+  holds s1 f = Some x -> holds s2 f = Some x -> s_id s1 = s_id s2.
+Proof. exact unique_from_ownership. Qed.
+Print Assumptions C02_unique_partial.
+
+(* initial registries built from address ranges are well-formed *)
+Theorem C02_initial_pools_wf :
+  forall f key prof vrf lo hi ex, pool_wf (new_pool f key prof vrf (GRange lo hi ex)).
+Proof. exact new_pool_wf_range. Qed.
+Print Assumptions C02_initial_pools_wf.
+
+(* ------------------------------------------------------------------ witnesses *)
+Definition a1 : N := 167772161.   (* 10.0.0.1 *)
+Definition a2 : N := 167772162.
+Definition holds_of (st : state) (sid : N) (f : fam) : option item :=
+  match find_sess sid st with Some s => holds s f | None => None end.
+
+(* D1: pool of one address, three PPPoE subscribers *)
+Definition w1_init := init_state [new_pool F4 1 0 0 (GRange a1 a1 [])]
+                                 [new_sess 1 true (Some 0) None 1; new_sess 2 true (Some 0) None 2; new_sess 3 true (Some 0) None 3].
+Definition w1_ops := [PA 1 0 None None None None None None; PA 2 0 None None None None None None;
+                      PA 3 0 None None None None None None; PI 2 (Some fallback_addr)].
+(* today's code: sessions 2 and 3, same VRF, both live, both hold 100.64.0.1 (and IPCP acked it for 2) *)
+Theorem C02_unique_refuted :
+  let st := run_first Defective w1_init w1_ops in
+  holds_of st 2 F4 = Some (fallback_addr, 0) /\ holds_of st 3 F4 = Some (fallback_addr, 0).
+Proof. vm_compute. split; reflexivity. Qed.
+Print Assumptions C02_unique_refuted.
+
+(* D2: overlapping pools in VRF 1 and VRF 2; IPoE session 1 (VRF 1) releases 10.0.0.1 by IP *)
+Definition w2_init := init_state [new_pool F4 1 0 1 (GRange a1 a1 []); new_pool F4 2 0 2 (GRange a1 a1 [])]
+                                 [new_sess 1 false (Some 0) None 1; new_sess 2 true (Some 0) None 2; new_sess 3 true (Some 0) None 3].
+Definition w2_ops := [ID true 1 1 None None; PA 2 2 None None None None None None; IR 1;
+                      PA 3 2 None None None None None None].
+(* today's code: session 2 (VRF 2, still live) and session 3 (VRF 2) both hold 10.0.0.1 *)
+Theorem C02_release_only_own_refuted :
+  let st := run_first Defective w2_init w2_ops in
+  holds_of st 2 F4 = Some (a1, 0) /\ holds_of st 3 F4 = Some (a1, 0).
+Proof. vm_compute. split; reflexivity. Qed.
+Print Assumptions C02_release_only_own_refuted.
+
+(* D3: admin terminate keeps the DHCPv4 lease; after its expiry the take-over frees the new holder's lease *)
+Definition w3_init := init_state [new_pool F4 1 0 0 (GRange a1 a1 [])]
+                                 [new_sess 1 false (Some 0) None 1; new_sess 2 false (Some 0) None 2; new_sess 3 true (Some 0) None 3].
+Definition w3_ops := [ID false 1 0 None None; ID true 1 0 None None; IT 1; IA 1; ID false 2 0 (Some a1) None;
+                      PA 3 0 None None None None None None].
+(* today's code: session 2 is offered 10.0.0.1, the registry holds nothing for it, session 3 gets 10.0.0.1 *)
+Theorem C02_told_is_recorded_refuted :
+  let st := run_first Defective w3_init w3_ops in
+  holds_of st 2 F4 = Some (a1, 0) /\ holds_of st 3 F4 = Some (a1, 0) /\
+  map (fun p => p_leases p) (pools (st_reg st)) = [[(a1, 3)]].
+Proof. vm_compute. repeat split; reflexivity. Qed.
+Print Assumptions C02_told_is_recorded_refuted.
+
+(* non-vacuity: the same three histories in the Repaired model keep every held address distinct and owned *)
+Example C02_nonvacuous :
+  (let st := run_first Repaired w1_init w1_ops in
+   holds_of st 1 F4 = Some (a1, 0) /\ holds_of st 2 F4 = None /\ holds_of st 3 F4 = None) /\
+  (let st := run_first Repaired w2_init w2_ops in
+   holds_of st 2 F4 = Some (a1, 0) /\ holds_of st 3 F4 = None) /\
+  (let st := run_first Repaired w3_init w3_ops in
+   holds_of st 2 F4 = Some (a1, 0) /\ holds_of st 3 F4 = None /\
+   map (fun p => p_leases p) (pools (st_reg st)) = [[(a1, 2)]]) /\
+  reg_ok (st_reg w2_init) /\ ~ pools_disjoint (st_reg w2_init) /\
+  reg_ok (st_reg w1_init) /\ pools_disjoint (st_reg w1_init).
+Proof.
+  split; [vm_compute; repeat split; reflexivity|].
+  split; [vm_compute; repeat split; reflexivity|].
+  split; [vm_compute; repeat split; reflexivity|].
+  split.
+  { split; [simpl; constructor; [simpl; intros [H|[]]; discriminate H|constructor; [simpl; tauto|constructor]]|].
+    constructor; [apply new_pool_wf_range|constructor; [apply new_pool_wf_range|constructor]]. }
+  split.
+  { intros H. specialize (H (new_pool F4 1 0 1 (GRange a1 a1 [])) (new_pool F4 2 0 2 (GRange a1 a1 [])) (a1, 0)).
+    simpl in H. assert (E : (F4, 1) = (F4, 2)) by (apply H; auto). discriminate E. }
+  split.
+  { split; [simpl; constructor; [simpl; tauto|constructor]|]. constructor; [apply new_pool_wf_range|constructor]. }
+  intros p q x Hp Hq _ _ _. simpl in Hp, Hq. destruct Hp as [<-|[]], Hq as [<-|[]]. reflexivity.
+Qed.
+Print Assumptions C02_nonvacuous.
